@@ -793,3 +793,293 @@ Proof.
   destruct (_ || _); [reflexivity|]. destruct (N.testbit e 1); [reflexivity|].
   destruct (k_rconn c); [reflexivity|]. destruct (N.testbit e 10); reflexivity.
 Qed.
+
+Lemma deny_of_false {A} (o : option A) : deny_of o = false -> o = None.
+Proof. destruct o; [discriminate|reflexivity]. Qed.
+
+Lemma op_pubp1_spec c m retain msg topic :
+  cspec c m (op_publish_persisted c 1 retain msg topic).
+Proof.
+  unfold op_publish_persisted. change (1 =? 1) with true. cbv beta iota zeta.
+  destruct (deny_of (topic_check topic)) eqn:D; [apply cspec_ret; reflexivity|].
+  apply deny_of_false in D.
+  destruct (packet_max <? _) eqn:Sz; [apply cspec_ret; reflexivity|]. apply N.ltb_ge in Sz.
+  destruct (k_seqclosed c) eqn:SC; [apply cspec_ret; reflexivity|].
+  destruct (k_closed c) eqn:CL; [apply cspec_ret; reflexivity|].
+  destruct (s_max1 (k_cfg c) <=? len (k_q1 c)) eqn:Mx; [apply cspec_ret; reflexivity|].
+  apply N.leb_gt in Mx.
+  replace (N.lor alo_space (N.land (k_acc1 c) id_mask)) with (key1 (k_acc1 c))
+    by (unfold key1; apply N.lor_comm).
+  change (publish_head_buf (head_publish 1 retain false) topic msg (key1 (k_acc1 c)) ++ msg)
+    with (pub1_packet retain topic msg (k_acc1 c)).
+  eapply trip_bind; [apply rugged_save_trip|].
+  intros [c1 ok] m1 [Hc [[Hok ->]|[Hok ->]]]; cbn [fst snd] in Hc, Hok; subst c1 ok; cbn [negb].
+  2:{ apply cspec_ret_R, R_save_failed. reflexivity. }
+  destruct (k_sub1 c <? k_acc1 c) eqn:BL.
+  { apply trip_ret. cbn [fst].
+    apply (R_accept1 c m _ retain topic msg (k_nextx c) (k_sub1 c) SC CL Mx D Sz); [auto|cp_solve]. }
+  apply N.ltb_ge in BL.
+  eapply trip_bind; [apply nowait_write_k|]. intros [c2 e] m1 [H ->]. cbn [fst] in H.
+  destruct (negb (e =? 0)); apply trip_ret; cbn [fst].
+  - apply (R_accept1 c m _ retain topic msg (k_nextx c) (k_sub1 c) SC CL Mx D Sz); [auto|cp_solve].
+  - apply (R_accept1 c m _ retain topic msg (k_nextx c) (k_acc1 c + 1) SC CL Mx D Sz); [auto|cp_solve].
+Qed.
+
+Lemma op_pubp2_spec c m retain msg topic :
+  cspec c m (op_publish_persisted c 2 retain msg topic).
+Proof.
+  unfold op_publish_persisted. change (2 =? 1) with false. cbv beta iota zeta.
+  destruct (deny_of (topic_check topic)) eqn:D; [apply cspec_ret; reflexivity|].
+  apply deny_of_false in D.
+  destruct (packet_max <? _) eqn:Sz; [apply cspec_ret; reflexivity|]. apply N.ltb_ge in Sz.
+  destruct (k_seqclosed c) eqn:SC; [apply cspec_ret; reflexivity|].
+  destruct (k_closed c) eqn:CL; [apply cspec_ret; reflexivity|].
+  destruct (s_max2 (k_cfg c) <=? len (k_q2 c)) eqn:Mx; [apply cspec_ret; reflexivity|].
+  apply N.leb_gt in Mx.
+  replace (N.lor eo_space (N.land (k_acc2 c) id_mask)) with (key2 (k_acc2 c))
+    by (unfold key2; apply N.lor_comm).
+  change (publish_head_buf (head_publish 2 retain false) topic msg (key2 (k_acc2 c)) ++ msg)
+    with (pub2_packet retain topic msg (k_acc2 c)).
+  eapply trip_bind; [apply rugged_save_trip|].
+  intros [c1 ok] m1 [Hc [[Hok ->]|[Hok ->]]]; cbn [fst snd] in Hc, Hok; subst c1 ok; cbn [negb].
+  2:{ apply cspec_ret_R, R_save_failed. reflexivity. }
+  destruct (k_sub2 c <? k_acc2 c) eqn:BL.
+  { apply trip_ret. cbn [fst].
+    apply (R_accept2 c m _ retain topic msg (k_nextx c) (k_sub2 c) SC CL Mx D Sz); [auto|cp_solve]. }
+  apply N.ltb_ge in BL.
+  eapply trip_bind; [apply nowait_write_k|]. intros [c2 e] m1 [H ->]. cbn [fst] in H.
+  destruct (negb (e =? 0)); apply trip_ret; cbn [fst].
+  - apply (R_accept2 c m _ retain topic msg (k_nextx c) (k_sub2 c) SC CL Mx D Sz); [auto|cp_solve].
+  - apply (R_accept2 c m _ retain topic msg (k_nextx c) (k_acc2 c + 1) SC CL Mx D Sz); [auto|cp_solve].
+Qed.
+
+(* ------------------------------------------------------------------ *)
+(* One step                                                            *)
+
+(* The Go API has the two persisted publish levels only; [op_publish_persisted]
+   treats every level other than 1 as exactly-once but composes the packet head from
+   the number given, so other levels are outside the abstract system. *)
+Definition op_level_ok (o : op) : Prop :=
+  match o with
+  | OpPubP l _ _ _ => l = 1 \/ l = 2
+  | _ => True
+  end.
+Definition op_wf (o : op) : Prop :=
+  op_level_ok o /\ forall m1 m2, o <> OpAdopt m1 m2.
+
+Lemma step_spec c m o : op_wf o -> cspec c m (step c o).
+Proof.
+  intros [Hl Ha]. unfold step. cbv zeta.
+  eapply cspec_same with (c1 := c <| k_done := [] |> <| k_xev := [] |>); [reflexivity|].
+  destruct o.
+  - apply read_slices_spec.
+  - apply kspec_cspec, read_all_op_k.
+  - apply kspec_cspec, op_publish_k.
+  - destruct Hl as [-> | ->]; [apply op_pubp1_spec|apply op_pubp2_spec].
+  - apply kspec_cspec, op_subscribe_k.
+  - apply kspec_cspec, op_subscribe_k.
+  - apply kspec_cspec, op_ping_k.
+  - apply kspec_cspec, op_quit_k.
+  - apply op_close_spec.
+  - apply op_disconnect_spec.
+  - exfalso. eapply Ha. reflexivity.
+  - apply cspec_ret_pair, cp_op_read_backoff.
+Qed.
+
+Lemma ost_of_oproj s : ost_of s = oproj (sy_c s) (sy_m s).
+Proof. destruct s. reflexivity. Qed.
+
+Lemma exec_R s o tp s' r log :
+  exec s o tp = Some (s', r, log) -> op_wf o -> R (sy_c s) (sy_m s) (sy_c s') (sy_m s').
+Proof.
+  intros E Hwf. unfold exec in E.
+  destruct (step (sy_c s) o (world_of (sy_m s) tp)) as [[[c' r'] w]|] eqn:St; [|discriminate].
+  inversion E; subst. clear E.
+  destruct (step_spec (sy_c s) (sy_m s) o Hwf (world_of (sy_m s) tp) _ _ eq_refl St)
+    as (m' & Hm' & HR).
+  cbn [fst] in HR. unfold store_of_world. cbn [sy_c sy_m]. rewrite Hm'. exact HR.
+Qed.
+
+Theorem exec_refines : forall s o tp s' r log,
+  exec s o tp = Some (s', r, log) -> op_wf o ->
+  osteps (ost_of s) (ost_of s').
+Proof. intros. rewrite !ost_of_oproj. eapply exec_R; eassumption. Qed.
+
+(* the configuration, hence the two maxima, is fixed between adoptions *)
+Theorem exec_cfg : forall s o tp s' r log,
+  exec s o tp = Some (s', r, log) -> op_wf o ->
+  k_cfg (sy_c s') = k_cfg (sy_c s).
+Proof. intros. eapply exec_R; eassumption. Qed.
+
+(* ------------------------------------------------------------------ *)
+(* AdoptSession                                                        *)
+
+(* records that do not decode (and are not the client identifier) may be deleted *)
+Definition undecodable (v : option (list N)) : Prop :=
+  forall p sq, decode_value (match v with Some b => b | None => [] end) <> DecOk p sq.
+
+Inductive purge : store -> store -> Prop :=
+| purge_refl : forall m, purge m m
+| purge_del : forall m k m', k <> 0 -> undecodable (store_get m k) ->
+                             purge (store_del m k) m' -> purge m m'.
+
+Lemma purge_trans a b c : purge a b -> purge b c -> purge a c.
+Proof. induction 1; intros; [assumption|]. econstructor; eauto. Qed.
+
+Lemma adopt_scan_trip keys : forall a m,
+  trip m (adopt_scan keys a) (fun _ m' => purge m m').
+Proof.
+  induction keys as [|k r IH]; intros a m; cbn [adopt_scan].
+  - apply trip_ret. constructor.
+  - destruct (N.eqb_spec k 0) as [|K0]; [apply IH|].
+    eapply trip_bind; [apply ask_store_trip|]. intros v m1 H.
+    destruct v as [ks|raw| |]; try apply trip_fail.
+    2:{ subst. apply trip_ret. constructor. }
+    destruct H as (k' & Hq & Hraw & ->). inversion Hq; subst k'. clear Hq.
+    destruct (decode_value _) as [packet sq| |] eqn:Dv.
+    + cbv zeta. destruct (N.testbit k 16); [apply IH|].
+      destruct packet as [|h t]; [apply trip_ret; constructor|]. apply IH.
+    + eapply trip_bind; [apply store_delete_trip|]. intros ok m1 Hd.
+      eapply trip_conseq; [apply IH|]. intros x m2 Hp.
+      destruct Hd as [[_ ->]|[_ ->]]; [|exact Hp].
+      eapply purge_del; [exact K0| |exact Hp].
+      intros p sq'. rewrite <- Hraw, Dv. discriminate.
+    + eapply trip_bind; [apply store_delete_trip|]. intros ok m1 Hd.
+      eapply trip_conseq; [apply IH|]. intros x m2 Hp.
+      destruct Hd as [[_ ->]|[_ ->]]; [|exact Hp].
+      eapply purge_del; [exact K0| |exact Hp].
+      intros p sq'. rewrite <- Hraw, Dv. discriminate.
+Qed.
+
+Lemma op_adopt_trip cf z1 z2 m :
+  trip m (op_adopt cf z1 z2) (fun _ m' => purge m m').
+Proof.
+  unfold op_adopt. eapply trip_bind; [apply ask_store_trip|]. intros a m1 H.
+  destruct a as [keys|raw| |]; try apply trip_fail.
+  2:{ subst. apply trip_ret. constructor. }
+  destruct H as (_ & _ & ->).
+  eapply trip_bind; [apply adopt_scan_trip|]. intros rr m1 Hp.
+  destruct rr as [acc|e]; [|apply trip_ret; exact Hp].
+  destruct (clean_seq (keys_of (a_alo acc))) as [alo g1].
+  destruct (clean_seq (keys_of (a_eo acc))) as [eo g2].
+  destruct (clean_seq (keys_of (a_rel acc))) as [rel g3].
+  cbv zeta.
+  match goal with |- trip _ (if ?b then _ else _) _ => destruct b end; apply trip_ret; exact Hp.
+Qed.
+
+Theorem exec_adopt_refines : forall s m1 m2 tp s' r log,
+  exec s (OpAdopt m1 m2) tp = Some (s', r, log) ->
+  adopts (ost_of s) (ost_of s')
+  \/ (sy_c s' = (sy_c s) <| k_done := [] |> <| k_xev := [] |> /\ purge (sy_m s) (sy_m s')).
+Proof.
+  intros s m1 m2 tp s' r log E. unfold exec, step in E. cbv zeta in E. unfold bind in E.
+  match type of E with context [op_adopt ?cf _ _ ?w] =>
+    destruct (op_adopt cf m1 m2 w) as [[[oc r'] w']|] eqn:Ad; [|discriminate] end.
+  destruct oc as [c'|]; unfold ret in E; inversion E; subst; clear E.
+  - left. unfold adopts. do 7 eexists. split; [exact Ad|reflexivity].
+  - right. split; [reflexivity|]. cbn [sy_m].
+    destruct (op_adopt_trip _ _ _ (sy_m s) (world_of (sy_m s) tp) _ _ eq_refl Ad) as (m' & Hm' & Hp).
+    unfold store_of_world. rewrite Hm'. exact Hp.
+Qed.
+
+(* what a purge keeps *)
+Lemma store_get_del_other m k k' : k <> k' -> store_get (store_del m k') k = store_get m k.
+Proof.
+  intros Hk. induction m as [|[k0 v0] m IH]; cbn [store_del store_get]; [reflexivity|].
+  destruct (N.eqb_spec k0 k').
+  - subst. destruct (N.eqb_spec k' k); [congruence|reflexivity].
+  - cbn [store_get]. rewrite IH. reflexivity.
+Qed.
+
+Lemma purge_keeps m m' : purge m m' ->
+  forall k v p sq, store_get m k = Some v -> decode_value v = DecOk p sq -> store_get m' k = Some v.
+Proof.
+  induction 1 as [|m k0 m' K0 U _ IH]; intros k v p sq G D; [exact G|].
+  eapply IH; [|exact D]. rewrite store_get_del_other; [exact G|].
+  intros ->. rewrite G in U. exact (U _ _ D).
+Qed.
+
+Lemma store_get_del_some m k k' v :
+  store_get (store_del m k') k = Some v -> exists v', store_get m k = Some v'.
+Proof.
+  destruct (N.eqb_spec k k') as [->|Hk].
+  - induction m as [|[k0 v0] m IH]; cbn [store_del store_get]; [discriminate|].
+    destruct (N.eqb_spec k0 k'); [eauto|]. cbn [store_get].
+    destruct (N.eqb_spec k0 k'); [congruence|]. exact IH.
+  - rewrite store_get_del_other by exact Hk. eauto.
+Qed.
+
+Lemma purge_no_new m m' : purge m m' ->
+  forall k v, store_get m' k = Some v -> exists v', store_get m k = Some v'.
+Proof.
+  induction 1 as [|m k0 m' K0 U _ IH]; intros k v G; [eauto|].
+  destruct (IH _ _ G) as (v' & G'). eapply store_get_del_some, G'.
+Qed.
+
+Lemma purge_key0 m m' : purge m m' -> store_get m' 0 = store_get m 0.
+Proof.
+  induction 1 as [|m k0 m' K0 U _ IH]; [reflexivity|].
+  rewrite IH. apply store_get_del_other. congruence.
+Qed.
+
+(* ------------------------------------------------------------------ *)
+(* Histories                                                           *)
+
+Theorem run_refines : forall h s,
+  Forall (fun p => op_wf (fst p)) h -> osteps (ost_of s) (ost_of (run s h)).
+Proof.
+  induction h as [|[o tp] h IH]; intros s Hh; cbn [run]; [constructor|].
+  inversion Hh; subst. cbn [fst] in *.
+  destruct (exec s o tp) as [[[s' r] log]|] eqn:E; [|apply IH; assumption].
+  eapply osteps_trans; [eapply exec_refines; eassumption|apply IH; assumption].
+Qed.
+
+Theorem run_cfg : forall h s,
+  Forall (fun p => op_wf (fst p)) h -> k_cfg (sy_c (run s h)) = k_cfg (sy_c s).
+Proof.
+  induction h as [|[o tp] h IH]; intros s Hh; cbn [run]; [reflexivity|].
+  inversion Hh; subst. cbn [fst] in *.
+  destruct (exec s o tp) as [[[s' r] log]|] eqn:E; [|apply IH; assumption].
+  rewrite IH by assumption. eapply exec_cfg; eassumption.
+Qed.
+
+(* with adoptions: a failed AdoptSession keeps the client and purges the store *)
+Definition purges (st st' : ost) : Prop :=
+  exists m', purge (o_store st) m' /\ st' = st <| o_store := m' |>.
+
+Inductive osteps_a : ost -> ost -> Prop :=
+| oa_refl : forall st, osteps_a st st
+| oa_step : forall a b c, ostep a b -> osteps_a b c -> osteps_a a c
+| oa_adopt : forall a b c, adopts a b -> osteps_a b c -> osteps_a a c
+| oa_purge : forall a b c, purges a b -> osteps_a b c -> osteps_a a c.
+
+Lemma osteps_a_trans a b c : osteps_a a b -> osteps_a b c -> osteps_a a c.
+Proof.
+  induction 1; intros; [assumption|eapply oa_step|eapply oa_adopt|eapply oa_purge]; eauto.
+Qed.
+Lemma osteps_osteps_a a b : osteps a b -> osteps_a a b.
+Proof. induction 1; [constructor|econstructor; eauto]. Qed.
+
+Lemma op_adopt_dec o : (exists m1 m2, o = OpAdopt m1 m2) \/ (forall m1 m2, o <> OpAdopt m1 m2).
+Proof. destruct o; try (right; intros; discriminate). left; eauto. Qed.
+
+Theorem exec_refines_a : forall s o tp s' r log,
+  exec s o tp = Some (s', r, log) -> op_level_ok o -> osteps_a (ost_of s) (ost_of s').
+Proof.
+  intros s o tp s' r log E Hl.
+  destruct (op_adopt_dec o) as [(m1 & m2 & ->)|Ha].
+  - destruct (exec_adopt_refines _ _ _ _ _ _ _ E) as [H|[Hc Hp]].
+    + eapply oa_adopt; [exact H|constructor].
+    + eapply oa_purge; [|constructor]. exists (sy_m s'). split; [exact Hp|].
+      destruct s as [c m], s' as [c' m']. cbn [sy_c sy_m] in *. subst c'. reflexivity.
+  - apply osteps_osteps_a. eapply exec_refines; [exact E|split; assumption].
+Qed.
+
+Theorem run_refines_a : forall h s,
+  Forall (fun p => op_level_ok (fst p)) h -> osteps_a (ost_of s) (ost_of (run s h)).
+Proof.
+  induction h as [|[o tp] h IH]; intros s Hh; cbn [run]; [constructor|].
+  inversion Hh; subst. cbn [fst] in *.
+  destruct (exec s o tp) as [[[s' r] log]|] eqn:E; [|apply IH; assumption].
+  eapply osteps_a_trans; [eapply exec_refines_a; eassumption|apply IH; assumption].
+Qed.
